@@ -1,0 +1,46 @@
+//go:build verif
+
+// Machine-checked contracts for this package (comment-only; compiled only with -tags verif,
+// and even then contributes no code).  Read by /verif/govc; see /verif/DESIGN.md.
+
+package labelindex
+
+//@ -- ---------------------------------------------------------------- C04: IP set membership by reference count
+//@ -- (thin) "Each member once however many endpoints contribute it": a member-added event is emitted exactly on a
+//@ -- reference count's 0 -> 1 transition and a member-removed event exactly on 1 -> 0, for the IP set and member
+//@ -- whose count is being changed.
+//@ ghost c04Set string
+//@ func (*SelectorAndNamedPortIndex).scanEndpointAgainstIPSets
+//@   property C04
+//@   option safety off
+//@   ghost at call onMemberAdded: check arg1 == ipSetID && arg2 == newMember && (!old(newMember in ipSetData.memberToRefCount) || old(ipSetData.memberToRefCount[newMember]) == 0)
+//@   ghost at call onMemberRemoved: check arg1 == ipSetID && arg2 == oldMember && old(oldMember in ipSetData.memberToRefCount) && old(ipSetData.memberToRefCount[oldMember]) == 1
+//@ func (*SelectorAndNamedPortIndex).DeleteEndpoint
+//@   property C04
+//@   option safety off
+//@   ghost at call onMemberRemoved: check arg1 == ipSetID && arg2 == oldMember && old(oldMember in ipSetData.memberToRefCount) && old(ipSetData.memberToRefCount[oldMember]) == 1
+//@ -- (the body of the range-over-func loop in scanEndpointAgainstIPSets)
+//@ func (*SelectorAndNamedPortIndex).scanEndpointAgainstIPSets$1
+//@   property C04
+//@   option safety off
+//@   ghost at call onMemberAdded: check arg1 == ipSetID && arg2 == newMember && (!old(newMember in ipSetData.memberToRefCount) || old(ipSetData.memberToRefCount[newMember]) == 0)
+//@ -- (the per-endpoint callback of UpdateIPSet: a new IP set's members are announced on their first contribution)
+//@ func (*SelectorAndNamedPortIndex).UpdateIPSet$1
+//@   property C04
+//@   option safety off
+//@   option stable *string
+//@   ghost at call GetLevel#2: c04Set = *ipSetID
+//@   ghost at call onMemberAdded: check arg1 == c04Set && arg2 == member && (!old(member in (*newIPSetData).memberToRefCount) || old((*newIPSetData).memberToRefCount[member]) == 0)
+//@ -- the de-duplicating wrappers pass events on for the same IP set
+//@ func (*SelectorAndNamedPortIndex).onMemberAdded
+//@   property C04
+//@   option safety off
+//@   ghost at call OnMemberAdded: check arg0 == ipSetID
+//@   ghost at call OnMemberRemoved: check arg0 == ipSetID
+//@   ghost at call Add: check arg1 == ipSetID
+//@ func (*SelectorAndNamedPortIndex).onMemberRemoved
+//@   property C04
+//@   option safety off
+//@   ghost at call OnMemberAdded: check arg0 == ipSetID
+//@   ghost at call OnMemberRemoved: check arg0 == ipSetID
+//@   ghost at call Remove: check arg1 == ipSetID
